@@ -136,6 +136,10 @@ Bad(r) ==
     [] r.op = "pfokSeedAdj" -> Scalar(LET adj == PfokSeedAdj(PfokS(r.l, r.zi, r.li))
                                       IN (r.rc = 0) = adj[1] /\ (adj[1] => PfokS(r.l, r.ozi, r.oli) = adj[2]))
     [] r.op = "pval" -> Scalar(PvalOk(r))
+    \* generation from the standard's seed reproduces the standard's table, and the generated set passes the cheap conditions
+    [] r.op = "paramsGen" -> Scalar(/\ r.rcStd = 0 /\ r.rcGen = 0 /\ r.sameAsStd = 1 /\ r.rc = 0
+                                    /\ \A c \in (IF r.scheme = "stb99" THEN {"lr", "plen", "qlen", "qdiv", "arange", "drange", "anotone"}
+                                                  ELSE {"lr", "nl", "plen", "grange"}) : CondHolds(r.scheme, c, ParamRec(r), r))
     [] r.op = "pubkeyVal" -> Scalar(PubkeyOk(r))
     [] r.op = "keypairVal" -> Scalar(KeypairOk(r))
     [] r.op = "onA" -> IF r.rc # 0 THEN {0}
